@@ -15,7 +15,16 @@ fn main() {
     let code = match args.get(1).map(|s| &s[..]) {
         Some("check") => plan::cmd_check(&args[2..]),
         Some("replay") => plan::cmd_replay(&args[2..]),
-        Some("big-child") => big::cmd_child(&args[2..]),
+        Some("big-child") => {
+            // PPG_STACK_KB: run the instance on a thread with that stack size (default: the main thread)
+            match std::env::var("PPG_STACK_KB").ok().and_then(|x| x.parse::<usize>().ok()) {
+                Some(kb) => {
+                    let a: Vec<String> = args[2..].to_vec();
+                    std::thread::Builder::new().stack_size(kb * 1024).spawn(move || big::cmd_child(&a)).unwrap().join().unwrap_or(3)
+                }
+                None => big::cmd_child(&args[2..]),
+            }
+        }
         Some("run") => plan::cmd_run(&args[2..]),
         Some("trace") => plan::cmd_trace(&args[2..]),
         Some("plan") => plan::cmd_plan(),
